@@ -29,7 +29,140 @@ SCENARIOS = {
 }
 
 
+MODULE_SCENARIOS = {
+    # requests of the second thread on an idle module / on a module running `slow`
+    'mod:start-quick': {'pre': [], 'req': [['start', 'quick']]},
+    'mod:start-slow': {'pre': [], 'req': [['start', 'slow']]},
+    'mod:start-quick-twice': {'pre': [], 'req': [['start', 'quick'], ['start', 'quick']]},
+    'mod:restart-quick': {'pre': ['slow'], 'req': [['start', 'quick']]},
+    'mod:stop': {'pre': ['slow'], 'req': [['stop']]},
+    'mod:start-stop': {'pre': [], 'req': [['start', 'slow'], ['stop']]},
+}
+_mod = {}
+
+
+def module_class():
+    if _mod:
+        return _mod['cls']
+    from frappy.core import Drivable, Parameter, BUSY, IDLE
+    from frappy.datatypes import StatusType
+    from frappy.states import HasStates, Retry, status_code
+
+    class QMod(HasStates, Drivable):
+        status = Parameter(datatype=StatusType(Drivable))
+
+        def read_value(self):
+            return 0.0
+
+        def quick(self, sm):                 # finishes within its first cycle
+            return self.final_status(IDLE, 'finished')
+
+        @status_code(BUSY, 'slow')
+        def slow(self, sm):                  # needs three cycles
+            if sm.init:
+                sm.n = 0
+            sm.n += 1
+            if sm.n < 3:
+                return Retry
+            return self.final_status(IDLE, 'done')
+    _mod.update(cls=QMod, BUSY=BUSY)
+    return QMod
+
+
+def execute_module(case, prefix):
+    """HasStates + Drivable on a real node: T1 = poll thread (doPoll x 4), T2 = requests (start_machine / stop_machine)"""
+    from vf.engines import schedx
+    from vf import nodes
+    import frappy.states  # noqa: F401
+    import frappy.lib.statemachine  # noqa: F401
+    from frappy.modulebase import PollInfo
+    schedx.install()
+    kinds = None if case['level'] == 'line' else {'acquire', 'tryacquire', 'release', 'spawn', 'join', 'yield', 'set', 'clear', 'wait'}
+    sched = schedx.Scheduler(prefix, point_kinds=kinds, max_steps=12000)
+    errors = []
+    out = {}
+    sc = MODULE_SCENARIOS[case['name']]
+
+    def body():
+        node = nodes.Node({'m': {'cls': module_class()}})
+        out['node'] = node
+        m = node.secnode.modules['m']
+        m.pollInfo = PollInfo(m.pollinterval, schedx.Event())
+        for f in sc['pre']:
+            m.start_machine(getattr(m, f))
+            m.doPoll()
+        sched.begin()
+
+        def poller():
+            for _ in range(4):
+                try:
+                    m.doPoll()
+                except Exception as e:      # noqa
+                    errors.append(('doPoll', repr(e)))
+
+        def requester():
+            for op in sc['req']:
+                try:
+                    if op[0] == 'start':
+                        m.start_machine(getattr(m, op[1]))
+                    else:
+                        m.stop_machine()
+                except Exception as e:      # noqa
+                    errors.append((op[0], repr(e)))
+        ts = [schedx.Thread(target=poller, name='poller'), schedx.Thread(target=requester, name='req')]
+        for t in ts:
+            t.start()
+        for t in ts:
+            t.join()
+        for _ in range(8):                  # run to quiescence
+            try:
+                m.doPoll()
+            except Exception as e:          # noqa
+                errors.append(('doPoll', repr(e)))
+        sm = m._state_machine
+        out['active'] = sm.is_active
+        out['sm_status'] = tuple(sm.status)
+        out['status'] = tuple(m.status)
+    x = sched.run(body)
+    viol = []
+    if x.deadlock:
+        viol = [('conc:mod:deadlock', x.deadlock)]
+    elif x.livelock:
+        viol = [('conc:mod:livelock', x.livelock)]
+    else:
+        for t in x.threads:
+            if t.exc is not None:
+                viol.append((f'conc:mod:thread-died:{type(t.exc).__name__}', f'{t.name}: {t.exc!r}'))
+        for what, e in errors:
+            viol.append((f'conc:mod:{what}-raised', e))
+        if not viol:
+            busy = _mod['BUSY']
+            if out['active']:
+                viol.append(('conc:mod:machine-still-active-at-quiescence', f'{out}'))
+            else:
+                last = sc['req'][-1]
+                for key in ('sm_status', 'status'):
+                    code = int(out[key][0])
+                    if busy <= code < busy + 100:
+                        viol.append((f'conc:mod:busy-status-after-the-machine-finished:last-request-{last[0]}',
+                                     f'the machine is inactive but {"the cached status" if key == "status" else "the status of the machine"} '
+                                     f'is {out[key]} (requests {sc["req"]} on a module {"running slow" if sc["pre"] else "at rest"})'))
+                        break
+                # after a start the run of the most recently requested state decides the final status; a stop request on
+                # a machine that is not running is documented to do nothing (the run's own final status stays)
+                if not viol and last[0] == 'start' and out['status'][1] != {'quick': 'finished', 'slow': 'done'}[last[1]]:
+                    viol.append(('conc:mod:final-status-of-another-run', f'last request {last}: final status {out["status"]}'))
+                if not viol and last[0] == 'stop' and out['status'][1] not in ('stopped', 'done', 'finished'):
+                    viol.append(('conc:mod:transient-status-text-left-after-the-machine-finished',
+                                 f'the machine is inactive, requests {sc["req"]}: final status {out["status"]}'))
+    if out.get('node') is not None:
+        out['node'].close()
+    return x, viol, [out.get('status'), out.get('sm_status'), out.get('active')]
+
+
 def execute(case, prefix):
+    if case['name'].startswith('mod:'):
+        return execute_module(case, prefix)
     from vf.engines import schedx
     import frappy.lib.statemachine as SM
     schedx.install()
@@ -169,6 +302,8 @@ def cases(tier):
     res = []
     for name, threads in SCENARIOS.items():
         res.append({'kind': 'conc', 'name': name, 'threads': threads, 'level': 'line', 'bound': 2 if tier == 'quick' else 3})
+    for name in MODULE_SCENARIOS:
+        res.append({'kind': 'conc', 'name': name, 'threads': [], 'level': 'line', 'bound': 1 if tier == 'quick' else 2})
     return res
 
 
@@ -176,7 +311,11 @@ def trace(case):
     from vf.engines import schedx
     import frappy.lib.statemachine as SM
     S = SM.StateMachine
-    schedx.trace_lines([S.cycle, S._cleanup, S._new_state, S.start, S.stop])
+    funcs = [S.cycle, S._cleanup, S._new_state, S.start, S.stop]
+    if case['name'].startswith('mod:'):
+        from frappy.states import HasStates as H
+        funcs = [S.start, S.stop, S._new_state, H.start_machine, H.stop_machine, H.cycle_machine, H.final_status, H.state_transition]
+    schedx.trace_lines(funcs)
 
 
 def root_fn(case):
@@ -204,13 +343,13 @@ def sub_fn(shard):
         part.traces += 1
         part.transitions += x.steps
         part.fps |= x.fingerprints
-        part.outcomes[hash(tuple(c[0] for c in calls if c[0] in 'ABCKL'))] += 1
+        part.outcomes[hash(tuple(c[0] for c in calls if c and c[0] in 'ABCKL')) if not case['name'].startswith('mod:') else str(calls)] += 1
         if x.preemptions:
             part.nontrivial += 1
         for sig, detail in viol:
             part.violation(f'C14:{sig}', dict(case, prefix=list(x.choices)), f'case {case["name"]} schedule {x.choices}: {detail}')
         if part.evaluations % 499 == 1:
-            part.sample({'case': case['name'], 'schedule': list(x.choices), 'calls': ''.join(c[0] for c in calls if c[0] in 'ABCKL')})
+            part.sample({'case': case['name'], 'schedule': list(x.choices), 'calls': str(calls) if case['name'].startswith('mod:') else ''.join(c[0] for c in calls if c[0] in 'ABCKL')})
         return x
     if prefix is None:
         ex([])
